@@ -140,10 +140,15 @@ def _classdefault(ctx, index, env):
         if isinstance(e, ast.Call):
             fn, args = e.func, e.args
             target = None
-            if isinstance(fn, ast.Name) and fn.id in nested:
-                g = nested[fn.id].node
+            helper = nested.get(fn.id) if isinstance(fn, ast.Name) else None
+            if helper is None and isinstance(fn, (ast.Name, ast.Attribute)):
+                # ... or a small function of the package (a helper hoisted to module level)
+                helper = index.funcs.get(index.callee(f.mod, e, f) or "")
+            if helper is not None:
+                g = helper.node
                 rets = [x for x in g.body if isinstance(x, ast.Return)]
-                if len(rets) == 1 and len(g.args.args) == len(args):
+                plain = all(isinstance(x, ast.Return) or (isinstance(x, ast.Expr) and isinstance(x.value, ast.Constant)) for x in g.body)
+                if len(rets) == 1 and plain and len(g.args.args) == len(args) and not e.keywords:
                     target = ([a.arg for a in g.args.args], rets[0].value)
             elif isinstance(fn, ast.Lambda) and len(fn.args.args) == len(args):
                 target = ([a.arg for a in fn.args.args], fn.body)
@@ -205,7 +210,7 @@ def _classdefault(ctx, index, env):
             "the description does not have".format(short(vkw, 60)),
             line=r.lineno,
         )
-    ctx.floor("AnnAssign returns of param2ast", n, 3)
+    ctx.floor("AnnAssign returns of param2ast", n, 1)
     ctx.count("annassign_sites", n)
 
 
